@@ -692,9 +692,9 @@ func shapeMeta(shape string, rng *rand.Rand) index.Metadata {
 		}
 		return m
 	case "key255":
-		return index.Metadata{rep(255): "x"}
+		return index.Metadata{rep(253 + rng.Intn(3)): "x"} // the last lengths the one-byte length field can hold
 	case "val65535":
-		return index.Metadata{"big": rep(65535)}
+		return index.Metadata{"big": rep(65533 + rng.Intn(3))}
 	case "nonutf8":
 		return index.Metadata{"\xff\xfe\x00k": "\x80\x00\xc3\x28"}
 	case "emptykv":
@@ -757,7 +757,15 @@ func streams(c Cfg, n int, seed int64, out, rankOut string) {
 		pre, _ := hx.Project(idx, u, nil)
 		for hdr := 0; hdr <= 1; hdr++ {
 			var buf bytes.Buffer
-			serr := idx.Save(&buf, hdr == 1)
+			// a panic inside Save is the index refusing to snapshot a state it reached (the apply loop would die)
+			serr := func() (err error) {
+				defer func() {
+					if r := recover(); r != nil {
+						err = fmt.Errorf("panic: %v", r)
+					}
+				}()
+				return idx.Save(&buf, hdr == 1)
+			}()
 			data := buf.Bytes()
 			for _, rdm := range readers {
 				for _, tgt := range []string{"fresh", "used"} {
@@ -768,6 +776,9 @@ func streams(c Cfg, n int, seed int64, out, rankOut string) {
 					}
 					if serr != nil {
 						ev.Res, ev.Err = "saveerr", serr.Error()
+						if strings.HasPrefix(serr.Error(), "panic: ") {
+							ev.Res = "savepanic"
+						}
 						enc.Encode(ev)
 						continue
 					}
@@ -931,7 +942,9 @@ func replicas(c Cfg, in, out string, seed int64, nbatch int) {
 				if err != nil {
 					snapErr[i] = "snapshot: " + err.Error()
 				}
-				snaps[i] = append([]byte{}, b...)
+				// kept as returned, not copied: the raft log store caches exactly this slice and hands it out for
+				// snapshot messages long after the state machine has moved on and taken further snapshots
+				snaps[i] = b
 			}
 			take(0)
 			dead := false
